@@ -37,7 +37,7 @@ MANIFEST = {
     "technique": "Lean 4 proof (executable model, Mathlib group law through the C02 refinement, decide over generated tables) + "
                  "differential correspondence model vs implementation + independent reference oracle",
 }
-RULE = ("ops c09pure <op> (same op under PYCOIN_NATIVE=none)/bip32_ckdraw/bip32_ckdpubraw/bip32_spec/bip32_master/bip32_node/bip32_pubcopy/bip32_ckd/bip32_path/bip32_nodepath/bip32_ser/bip32_deser/hwif/hparse/subpaths/"
+RULE = ("ops bip32_address/c09pure <op> (same op under PYCOIN_NATIVE=none)/bip32_ckdraw/bip32_ckdpubraw/bip32_spec/bip32_master/bip32_node/bip32_pubcopy/bip32_ckd/bip32_path/bip32_nodepath/bip32_ser/bip32_deser/hwif/hparse/subpaths/"
         "bip32_hist/bip32_pathhist/bip32_subkeys/electrum_new/electrum_subkey; boundary corpus (BIP32 vectors 1-3, indices 0, 1, "
         "2^24-1, 2^24, 2^31-1, 2^31 hardened and not, parents whose exponent has leading zero bytes, depth 255/256, every network "
         "x prefix kind, wrong-length / wrong-prefix / corrupted extended keys, path spellings, ranges) + seeded random seeds, paths, "
@@ -282,6 +282,9 @@ def impl(op: str) -> str:
             return "ok " + show_node(cls_for("btc", int(a[1])).deserialize(unhx(a[2])))
         if k == "hwif":
             return "ok " + s2h(mk_node(a[2], a[1]).hwif(as_private=a[3] == "1"))
+        if k == "bip32_address":
+            r = mk_node(a[2], a[1]).address()
+            return "none" if r is None else "ok " + s2h(r)
         if k == "hparse":
             r = getattr(net(a[1]).parse, "bip%s" % a[2])(h2s(a[3]))
             return "none" if r is None else "ok " + show_node(r)
@@ -432,6 +435,34 @@ def _b58check_payload(text):
     return raw[:-4]
 
 
+BECH = "qpzry9x8gf2tvdw0s3jn54khce6mua7l"
+
+
+def ref_segwit_v0(hrp, prog):
+    """BIP173 encoder, version 0 (own implementation, oracle only)"""
+    def polymod(values):
+        gen = [0x3B6A57B2, 0x26508E6D, 0x1EA119FA, 0x3D4233DD, 0x2A1462B3]
+        chk = 1
+        for v in values:
+            b = chk >> 25
+            chk = (chk & 0x1FFFFFF) << 5 ^ v
+            for i in range(5):
+                chk ^= gen[i] if ((b >> i) & 1) else 0
+        return chk
+    acc, bits, data = 0, 0, [0]
+    for byte in prog:
+        acc = (acc << 8) | byte
+        bits += 8
+        while bits >= 5:
+            bits -= 5
+            data.append((acc >> bits) & 31)
+    if bits:
+        data.append((acc << (5 - bits)) & 31)
+    hrpx = [ord(ch) >> 5 for ch in hrp] + [0] + [ord(ch) & 31 for ch in hrp]
+    pm = polymod(hrpx + data + [0] * 6) ^ 1
+    return hrp + "1" + "".join(BECH[d] for d in data + [(pm >> 5 * (5 - i)) & 31 for i in range(6)])
+
+
 STEP_RE = re.compile(r"^(\d+)(['pH]?)$")
 
 
@@ -509,6 +540,21 @@ VECTORS = {
                "xprv9uPDJpEQgRQfDcW7BkF7eTya6RPxXeJCqCJGHuCJ4GiRVLzkTXBAJMu2qaMWPrS7AANYqdq6vcBcBUdJCVVFceUvJFjaPdGZ2y9WACViL4L"),
     },
 }
+
+
+# BIP84 / BIP49 test vectors: BIP39 seed of "abandon abandon ... about" (empty passphrase)
+BIP39_SEED = "5eb00bbddcf069084889a8ab9155568165f5c453ccb85e70811aaed6f6da5fc19a5ac40b389cd370d086206dec8aa6c43daea6690f20ad3d8d48b2d2ce9e38e4"
+ADDRESS_VECTORS = {
+    ("btc", 84, "84H/0H/0H/0/0"): "bc1qcr8te4kr609gcawutmrza0j4xv80jy8z306fyu",
+    ("btc", 84, "84H/0H/0H/0/1"): "bc1qnjg0jd8228aq7egyzacy8cys3knf9xvrerkf9g",
+    ("btc", 84, "84H/0H/0H/1/0"): "bc1q8c6fshw2dlwun7ekn9qwf37cu2rn755upcp6el",
+    ("xtn", 49, "49H/1H/0H/0/0"): "2Mww8dCYPUpKHofjgcXcBCEGmniw9CoaiD2",
+}
+
+
+def _request_token(tok):
+    t = tok.split(":")
+    return ":".join(t[:5]) + (":s" + t[5] if t[5] != "-" else ":p" + t[6])
 
 
 # ------------------------------------------------------------------ oracle: the property on the implementation alone
@@ -700,6 +746,26 @@ def oracle(op: str, out: str):
                 if set(pfx(other)) & set(pfx(kind)):
                     continue  # the network gives two kinds the same prefix (LTC bip84 = BTC bip84 is fine; same-network clash is table business)
                 return "text of kind bip%d also parses as bip%d" % (kind, other)
+    if k == "bip32_address" and out.startswith("ok "):
+        name, kind = a[1], int(a[2].split(":")[0])
+        par_tok = impl("bip32_node " + a[2])
+        n = ref_of_token(par_tok[3:])
+        h = hash160(ser_p(n["K"]))
+        aa = net(name).address
+        if kind == 32:
+            want = ref_b58check(aa._address_prefix + h) if aa._address_prefix is not None else None
+        elif kind == 49:
+            want = ref_b58check(aa._pay_to_script_prefix + hash160(b"\x00\x14" + h)) if aa._pay_to_script_prefix is not None else None
+        else:
+            want = ref_segwit_v0(aa._bech32_hrp, h) if aa._bech32_hrp is not None else None
+        if want is not None and out != "ok " + s2h(want):
+            return "address is not the %s form of the node's key" % {32: "p2pkh", 49: "p2sh-p2wpkh (BIP49)", 84: "p2wpkh (BIP84)"}[kind]
+    if k == "bip32_path" and out.startswith("ok ") and a[3] == BIP39_SEED and a[5] == "0":
+        vec = ADDRESS_VECTORS.get((a[1], int(a[2]), h2s(a[4]).replace("'", "H").replace("p", "H")))
+        if vec:
+            got = impl("bip32_address %s %s" % (a[1], _request_token(out[3:].split(" ")[0])))
+            if got != "ok " + s2h(vec):
+                return "BIP49/BIP84 test vector address not reproduced: %s" % got
     if k == "hparse":
         if out.startswith("err "):
             return "parser raised %s instead of returning None" % out[4:]
@@ -931,6 +997,16 @@ def gen(ctx, emit):
                         texts.append((m, kind, r[3:]))
             elif m in ("bch", "doge", "zec", "dash"):
                 emit("hwif %s %s 1" % (m, t))   # kind not defined on this network: TypeError as coded
+    # address form per class: BIP32Node p2pkh, BIP49Node p2sh-p2wpkh, BIP84Node p2wpkh; BIP84/BIP49 test vectors
+    for (name, kind, path) in ADDRESS_VECTORS:
+        emit("bip32_path %s %d %s %s 0" % (name, kind, BIP39_SEED, s2h(path)))
+    for m in ("btc", "xtn", "ltc", "doge", "bch"):
+        for kind in (32, 49, 84):
+            t = rand_priv_tok(kind=kind)
+            emit("bip32_address %s %s" % (m, t))
+            emit("bip32_address %s %s" % (m, pub_tok_of(t)))
+    for _ in range(ctx.n(10, 300)):
+        emit("bip32_address %s %s" % (rng.choice(mods), rand_priv_tok(kind=rng.choice([32, 49, 84]))))
     # public-only nodes, both parities of y
     for _ in range(ctx.n(6, 60)):
         emit("hwif %s %s 0" % (rng.choice(mods), pub_tok_of(rand_priv_tok())))
